@@ -54,6 +54,7 @@
 #include "stir/recon_buildblock/RelativeDifferencePrior.h"
 #include "stir/recon_buildblock/GeneralisedPrior.h"
 #include "stir/ProjDataInMemory.h"
+#include "stir/ProjDataInterfile.h"
 #include "stir/DataProcessor.h"
 #include "stir/DiscretisedDensity.h"
 #include "stir/ViewSegmentNumbers.h"
@@ -142,6 +143,13 @@ struct Geo
   std::vector<std::vector<std::pair<int, float>>> rows; // explicit system matrix, one row per bin
   std::vector<int> basic_view;                            // view number of the basic (view, segment) of each bin
   std::size_t max_row = 0, max_col = 0;
+  int span = 1, mash = 1, tofbins = 0, views = 0;
+  bool tof = false;
+  // the sensitivity of TOF data is computed with a NON-TOF projector (use_tofsens = false, the default): its bins / rows.
+  // For non-TOF data these are the bins / rows above.
+  std::vector<Bin> sbins;
+  std::vector<std::vector<std::pair<int, float>>> srows;
+  std::vector<int> sbasic_view;
 };
 
 static shared_ptr<ProjMatrixByBinUsingRayTracing>
@@ -154,22 +162,70 @@ make_pm(int flags)
   return pm;
 }
 
+// rows of the explicit system matrix for every bin of `pdi` (order: segment, view, TOF bin, axial, tangential)
+static void
+explicit_rows(Geo& g, const shared_ptr<ProjDataInfo>& pdi, std::vector<Bin>& bins,
+              std::vector<std::vector<std::pair<int, float>>>& rows, std::vector<int>& basic_view, bool count)
+{
+  shared_ptr<ProjMatrixByBinUsingRayTracing> pm = make_pm(g.symflags);
+  pm->set_up(pdi, g.tmpl);
+  const DataSymmetriesForViewSegmentNumbers* sym = pm->get_symmetries_ptr();
+  std::vector<std::size_t> col(g.nvox, 0);
+  for (int seg = pdi->get_min_segment_num(); seg <= pdi->get_max_segment_num(); ++seg)
+    for (int view = pdi->get_min_view_num(); view <= pdi->get_max_view_num(); ++view)
+      {
+        ViewSegmentNumbers vs(view, seg);
+        sym->find_basic_view_segment_numbers(vs);
+        for (int tpos = pdi->get_min_tof_pos_num(); tpos <= pdi->get_max_tof_pos_num(); ++tpos)
+          for (int ax = pdi->get_min_axial_pos_num(seg); ax <= pdi->get_max_axial_pos_num(seg); ++ax)
+            for (int tang = pdi->get_min_tangential_pos_num(); tang <= pdi->get_max_tangential_pos_num(); ++tang)
+              {
+                Bin bin(seg, view, ax, tang, tpos);
+                ProjMatrixElemsForOneBin elems;
+                pm->get_proj_matrix_elems_for_one_bin(elems, bin);
+                std::vector<std::pair<int, float>> row;
+                for (ProjMatrixElemsForOneBin::const_iterator it = elems.begin(); it != elems.end(); ++it)
+                  {
+                    const int z = it->coord1() - g.minz, y = it->coord2() - g.miny, x = it->coord3() - g.minx;
+                    if (z < 0 || z >= g.nz || y < 0 || y >= g.ny || x < 0 || x >= g.nx)
+                      continue;
+                    const int j = (z * g.ny + y) * g.nx + x;
+                    row.push_back(std::make_pair(j, it->get_value()));
+                    ++col[j];
+                  }
+                if (count)
+                  g.max_row = std::max(g.max_row, row.size());
+                bins.push_back(bin);
+                rows.push_back(row);
+                basic_view.push_back(vs.view_num());
+              }
+      }
+  for (std::size_t c : col)
+    g.max_col = std::max(g.max_col, c);
+}
+
+// span 1 or 3, view mashing factor `mash`, `tofbins` > 0: time-of-flight data: a scanner with 15 TOF bins of 100 ps (timing
+// resolution 400 ps: the bins cover the kernel over the whole image, as on real scanners), mashed to `tofbins` (3 or 5) bins
 static Geo
-make_geo(int N, int R, int nxy, int symflags)
+make_geo(int N, int R, int nxy, int symflags, int span = 1, int mash = 1, int tofbins = 0)
 {
   Geo g;
   g.N = N;
   g.R = R;
   g.symflags = symflags;
-  g.scanner = vh::make_scanner(N, R);
-  g.pdi = vh::make_pdi(g.scanner, 1, R - 1, N / 2, N / 2 - 1, false, 0);
+  g.span = span;
+  g.mash = mash;
+  g.tofbins = tofbins;
+  g.tof = tofbins > 0;
+  g.views = N / 2 / mash;
+  g.scanner = vh::make_scanner(N, R, tofbins > 0 ? 15 : -1);
+  g.pdi = vh::make_pdi(g.scanner, span, span == 1 ? R - 1 : 2, g.views, N / 2 - 1, false, tofbins > 0 ? 15 / tofbins : 0);
   g.tmpl = vh::make_image(*g.pdi, 1.F, nxy, 2 * R - 1);
   {
     shared_ptr<ExamInfo> ei(new ExamInfo);
     ei->imaging_modality = ImagingModality::PT;
     g.tmpl->set_exam_info(*ei);
   }
-  const IndexRange<3> range = g.tmpl->get_index_range();
   g.minz = g.tmpl->get_min_index();
   g.nz = g.tmpl->get_length();
   g.miny = (*g.tmpl)[g.minz].get_min_index();
@@ -177,39 +233,22 @@ make_geo(int N, int R, int nxy, int symflags)
   g.minx = (*g.tmpl)[g.minz][g.miny].get_min_index();
   g.nx = (*g.tmpl)[g.minz][g.miny].get_length();
   g.nvox = g.nx * g.ny * g.nz;
-  shared_ptr<ProjMatrixByBinUsingRayTracing> pm = make_pm(symflags);
-  pm->set_up(g.pdi, g.tmpl);
-  const DataSymmetriesForViewSegmentNumbers* sym = pm->get_symmetries_ptr();
-  std::vector<std::size_t> col(g.nvox, 0);
-  for (int seg = g.pdi->get_min_segment_num(); seg <= g.pdi->get_max_segment_num(); ++seg)
-    for (int view = g.pdi->get_min_view_num(); view <= g.pdi->get_max_view_num(); ++view)
-      {
-        ViewSegmentNumbers vs(view, seg);
-        sym->find_basic_view_segment_numbers(vs);
-        for (int ax = g.pdi->get_min_axial_pos_num(seg); ax <= g.pdi->get_max_axial_pos_num(seg); ++ax)
-          for (int tang = g.pdi->get_min_tangential_pos_num(); tang <= g.pdi->get_max_tangential_pos_num(); ++tang)
-            {
-              Bin bin(seg, view, ax, tang);
-              ProjMatrixElemsForOneBin elems;
-              pm->get_proj_matrix_elems_for_one_bin(elems, bin);
-              std::vector<std::pair<int, float>> row;
-              for (ProjMatrixElemsForOneBin::const_iterator it = elems.begin(); it != elems.end(); ++it)
-                {
-                  const int z = it->coord1() - g.minz, y = it->coord2() - g.miny, x = it->coord3() - g.minx;
-                  if (z < 0 || z >= g.nz || y < 0 || y >= g.ny || x < 0 || x >= g.nx)
-                    continue;
-                  const int j = (z * g.ny + y) * g.nx + x;
-                  row.push_back(std::make_pair(j, it->get_value()));
-                  ++col[j];
-                }
-              g.max_row = std::max(g.max_row, row.size());
-              g.bins.push_back(bin);
-              g.rows.push_back(row);
-              g.basic_view.push_back(vs.view_num());
-            }
-      }
-  for (std::size_t c : col)
-    g.max_col = std::max(g.max_col, c);
+  explicit_rows(g, g.pdi, g.bins, g.rows, g.basic_view, true);
+  if (g.tof)
+    {
+      shared_ptr<ProjDataInfo> nontof = g.pdi->create_non_tof_clone();
+      explicit_rows(g, nontof, g.sbins, g.srows, g.sbasic_view, true);
+      // the subset S of the property's formula is the subset of the DATA (TOF projector: view symmetries are switched off,
+      // so the basic view of a bin is its view); s_S must be the sensitivity of the same S
+      for (std::size_t b = 0; b < g.sbins.size(); ++b)
+        g.sbasic_view[b] = g.sbins[b].view_num();
+    }
+  else
+    {
+      g.sbins = g.bins;
+      g.srows = g.rows;
+      g.sbasic_view = g.basic_view;
+    }
   return g;
 }
 
@@ -218,6 +257,7 @@ struct Data
   std::vector<double> y, add, eff; // per bin: counts, additive term (STIR convention: inside the brackets), efficiency
   bool has_add, has_norm;
   shared_ptr<ProjDataInMemory> y_pd, add_pd, norm_pd;
+  mutable std::string file_prefix; // Interfile copies of the projection data (parameter-file path), written on first use
 };
 
 static shared_ptr<ProjDataInMemory>
@@ -230,11 +270,14 @@ make_pd(const Geo& g, const std::vector<double>& vals)
   for (int seg = g.pdi->get_min_segment_num(); seg <= g.pdi->get_max_segment_num(); ++seg)
     for (int view = g.pdi->get_min_view_num(); view <= g.pdi->get_max_view_num(); ++view)
       {
-        Viewgram<float> v = pd->get_empty_viewgram(view, seg);
-        for (int ax = g.pdi->get_min_axial_pos_num(seg); ax <= g.pdi->get_max_axial_pos_num(seg); ++ax)
-          for (int tang = g.pdi->get_min_tangential_pos_num(); tang <= g.pdi->get_max_tangential_pos_num(); ++tang)
-            v[ax][tang] = static_cast<float>(vals[b++]);
-        pd->set_viewgram(v);
+        for (int tpos = g.pdi->get_min_tof_pos_num(); tpos <= g.pdi->get_max_tof_pos_num(); ++tpos)
+          {
+            Viewgram<float> v = pd->get_empty_viewgram(view, seg, false, tpos);
+            for (int ax = g.pdi->get_min_axial_pos_num(seg); ax <= g.pdi->get_max_axial_pos_num(seg); ++ax)
+              for (int tang = g.pdi->get_min_tangential_pos_num(); tang <= g.pdi->get_max_tangential_pos_num(); ++tang)
+                v[ax][tang] = static_cast<float>(vals[b++]);
+            pd->set_viewgram(v);
+          }
       }
   return pd;
 }
@@ -310,10 +353,12 @@ make_data(const Geo& g, vh::Rng& rng, bool has_add, bool has_norm, double level,
 class LogFilter : public DataProcessor<TargetT>
 {
 public:
-  explicit LogFilter(float shift_v) : shift(shift_v) {}
+  explicit LogFilter(float shift_v, const IterativeReconstruction<TargetT>* owner_v = nullptr) : shift(shift_v), owner(owner_v) {}
   std::string get_registered_name() const override { return "verif log filter"; }
   mutable std::vector<Vec> inputs, outputs;
+  mutable std::vector<int> at; // sub-iteration number of the owning reconstruction at each call
   float shift;
+  const IterativeReconstruction<TargetT>* owner;
   Vec compute(const Vec& in) const
   {
     Vec out(in.size());
@@ -332,6 +377,7 @@ protected:
   {
     Vec in = to_vec(data);
     inputs.push_back(in);
+    at.push_back(owner ? owner->get_subiteration_num() : -1);
     Vec out = compute(in);
     outputs.push_back(out);
     from_vec(data, out);
@@ -357,6 +403,8 @@ struct RunCfg
   float iuf_shift = 0.F, iif_shift = 0.F;
   int max_seg = -1;
   int save_interval = 1;
+  bool post = false; // a post-filter (Reconstruction::set_post_processor_sptr)
+  float post_shift = 0.F;
   bool prior_active() const { return prior == 1 || prior == 2; }
   int map_code() const { return prior_active() ? map : 0; }
 };
@@ -365,7 +413,7 @@ struct Objects
 {
   shared_ptr<ObjT> obj;
   shared_ptr<OSMAPOSLReconstruction<TargetT>> recon;
-  shared_ptr<LogFilter> fu, fi;
+  shared_ptr<LogFilter> fu, fi, fp;
 };
 
 static shared_ptr<ObjT>
@@ -389,6 +437,30 @@ make_obj(const Geo& g, const Data& d, const RunCfg& c)
   return obj;
 }
 
+// the user's data processors (harness-defined, so they cannot come from a parameter file: set through the setters)
+template <class ReconT>
+static void
+configure_filters(ReconT& r, const RunCfg& c, Objects& o)
+{
+  if (c.iuf > 0)
+    {
+      o.fu.reset(new LogFilter(c.iuf_shift, &r));
+      r.set_inter_update_filter_interval(c.iuf);
+      r.set_inter_update_filter_ptr(o.fu);
+    }
+  if (c.iif > 0)
+    {
+      o.fi.reset(new LogFilter(c.iif_shift, &r));
+      r.set_inter_iteration_filter_interval(c.iif);
+      r.set_inter_iteration_filter_ptr(o.fi);
+    }
+  if (c.post)
+    {
+      o.fp.reset(new LogFilter(c.post_shift, &r));
+      r.set_post_processor_sptr(o.fp);
+    }
+}
+
 template <class ReconT>
 static void
 configure_recon(ReconT& r, const shared_ptr<ObjT>& obj, const RunCfg& c, Objects& o, int start, int last, const std::string& prefix)
@@ -407,18 +479,7 @@ configure_recon(ReconT& r, const shared_ptr<ObjT>& obj, const RunCfg& c, Objects
       r.set_maximum_relative_change(c.maxrel);
       r.set_minimum_relative_change(c.minrel);
     }
-  if (c.iuf > 0)
-    {
-      o.fu.reset(new LogFilter(c.iuf_shift));
-      r.set_inter_update_filter_interval(c.iuf);
-      r.set_inter_update_filter_ptr(o.fu);
-    }
-  if (c.iif > 0)
-    {
-      o.fi.reset(new LogFilter(c.iif_shift));
-      r.set_inter_iteration_filter_interval(c.iif);
-      r.set_inter_iteration_filter_ptr(o.fi);
-    }
+  configure_filters(r, c, o);
   if (prefix.empty())
     r.set_disable_output(true);
   else
@@ -510,6 +571,121 @@ read_image(const std::string& fname)
   return to_vec(*im);
 }
 
+
+// ------------------------------------------------------------------------------------------------ parameter files
+// The path of the users: an OSMAPOSL parameter file (objective function, projector, prior, schedule, `initial estimate`,
+// `start at subiteration number`) parsed by OSMAPOSLReconstruction(parameter_filename), then the no-argument reconstruct().
+static void
+ensure_files(const Geo& g, const Data& d)
+{
+  if (!d.file_prefix.empty())
+    return;
+  static int counter = 0;
+  d.file_prefix = g_outdir + "/data" + std::to_string(counter++);
+  auto write = [&](const ProjDataInMemory& pd, const std::string& name) {
+    ProjDataInterfile out(pd.get_exam_info_sptr(), pd.get_proj_data_info_sptr(), name);
+    out.fill(pd);
+  };
+  write(*d.y_pd, d.file_prefix + "_y.hs");
+  if (d.has_add)
+    write(*d.add_pd, d.file_prefix + "_add.hs");
+  if (d.has_norm)
+    write(*d.norm_pd, d.file_prefix + "_norm.hs");
+}
+
+static std::string
+fmt_float(float x)
+{
+  char buf[64];
+  std::snprintf(buf, sizeof buf, "%.9g", static_cast<double>(x));
+  return buf;
+}
+static std::string
+fmt_double(double x)
+{
+  char buf[64];
+  std::snprintf(buf, sizeof buf, "%.17g", x);
+  return buf;
+}
+
+// writes <prefix>.par; `initial` is "0", "1" or the name of an image file
+static std::string
+write_par(const Geo& g, const Data& d, const RunCfg& c, int start, int last, const std::string& prefix, const std::string& initial)
+{
+  ensure_files(g, d);
+  const std::string fname = prefix + ".par";
+  std::ofstream f(fname.c_str());
+  f << "OSMAPOSLParameters :=\n"
+    << "objective function type := PoissonLogLikelihoodWithLinearModelForMeanAndProjData\n"
+    << "PoissonLogLikelihoodWithLinearModelForMeanAndProjData Parameters :=\n"
+    << "  input file := " << d.file_prefix << "_y.hs\n"
+    << "  maximum absolute segment number to process := " << c.max_seg << "\n"
+    << "  zero end planes of segment 0 := 0\n"
+    << "  projector pair type := Matrix\n"
+    << "    Projector Pair Using Matrix Parameters :=\n"
+    << "      Matrix type := Ray Tracing\n"
+    << "        Ray Tracing Matrix Parameters :=\n"
+    << "          do_symmetry_90degrees_min_phi := " << ((g.symflags & 1) ? 1 : 0) << "\n"
+    << "          do_symmetry_180degrees_min_phi := " << ((g.symflags & 2) ? 1 : 0) << "\n"
+    << "          do_symmetry_swap_segment := " << ((g.symflags & 4) ? 1 : 0) << "\n"
+    << "        End Ray Tracing Matrix Parameters :=\n"
+    << "    End Projector Pair Using Matrix Parameters :=\n";
+  if (d.has_add)
+    f << "  additive sinogram := " << d.file_prefix << "_add.hs\n";
+  if (d.has_norm)
+    f << "  Bin Normalisation type := From ProjData\n"
+      << "    Bin Normalisation From ProjData :=\n"
+      << "      normalisation_projdata_filename := " << d.file_prefix << "_norm.hs\n"
+      << "    End Bin Normalisation From ProjData :=\n";
+  if (c.prior == 1 || c.prior == 3)
+    f << "  prior type := Quadratic\n"
+      << "    Quadratic Prior Parameters :=\n"
+      << "      penalisation factor := " << fmt_float(c.prior == 3 ? 0.F : c.beta) << "\n"
+      << "      only 2D := 0\n"
+      << "    END Quadratic Prior Parameters :=\n";
+  else if (c.prior == 2)
+    f << "  prior type := Relative Difference Prior\n"
+      << "    Relative Difference Prior Parameters :=\n"
+      << "      penalisation factor := " << fmt_float(c.beta) << "\n"
+      << "      only 2D := 0\n"
+      << "      gamma value := 2\n"
+      << "      epsilon value := 0.01\n"
+      << "    END Relative Difference Prior Parameters :=\n";
+  f << "  use_subset_sensitivities := " << (c.use_subset_sens ? 1 : 0) << "\n"
+    << "  zoom := 1\n"
+    << "  XY output image size (in pixels) := " << g.nx << "\n"
+    << "  Z output image size (in pixels) := " << g.nz << "\n"
+    << "End PoissonLogLikelihoodWithLinearModelForMeanAndProjData Parameters :=\n"
+    << "initial estimate := " << initial << "\n"
+    << "output filename prefix := " << prefix << "\n"
+    << "number of subsets := " << c.nsub << "\n"
+    << "start at subset := " << c.start_subset << "\n"
+    << "number of subiterations := " << last << "\n"
+    << "start at subiteration number := " << start << "\n"
+    << "save estimates at subiteration intervals := " << std::min(c.save_interval, last) << "\n"
+    << "enforce initial positivity condition := " << (c.enforce ? 1 : 0) << "\n";
+  if (c.prior_active())
+    f << "MAP_model := " << (c.map == 1 ? "additive" : "multiplicative") << "\n";
+  if (c.clamps)
+    f << "maximum relative change := " << fmt_double(c.maxrel) << "\n"
+      << "minimum relative change := " << fmt_double(c.minrel) << "\n";
+  f << "End OSMAPOSLParameters :=\n";
+  return fname;
+}
+
+// equality of two images that may hold NaN: same bits
+static bool
+same_files(const std::string& a, const std::string& b, bool& both_exist)
+{
+  const bool ea = file_exists(a), eb = file_exists(b);
+  both_exist = ea && eb;
+  if (ea != eb)
+    return false;
+  if (!ea)
+    return true;
+  return bitwise_equal(read_image(a), read_image(b));
+}
+
 // ------------------------------------------------------------------------------------------------ oracle pieces
 struct Explicit
 { // textbook quantities from the explicit matrix, in double
@@ -533,11 +709,23 @@ explicit_quantities(const Geo& g, const Data& d, const RunCfg& c, const Vec& lam
   e.sens.assign(g.nvox, 0.);
   e.ybar.assign(g.bins.size(), 0.);
   // STIR's divide_and_truncate works per viewgram: threshold = max of the measured viewgram * 1e-6
-  std::map<std::pair<int, int>, double> vmax;
+  auto vkey = [&](const Bin& bin) { return (bin.segment_num() * 4096 + bin.view_num()) * 64 + bin.timing_pos_num(); };
+  std::map<int, double> vmax;
   for (std::size_t b = 0; b < g.bins.size(); ++b)
     {
-      auto key = std::make_pair(g.bins[b].segment_num(), g.bins[b].view_num());
+      const int key = vkey(g.bins[b]);
       vmax[key] = std::max(vmax.count(key) ? vmax[key] : 0., d.y[b]);
+    }
+  // total (all subsets) sensitivity / subset sensitivity: for TOF data from the non-TOF matrix (efficiencies 1 there)
+  for (std::size_t b = 0; b < g.sbins.size(); ++b)
+    {
+      if (std::abs(g.sbins[b].segment_num()) > max_seg)
+        continue;
+      const bool mine = g.sbasic_view[b] % c.nsub == subset;
+      const double eff = g.tof ? 1. : d.eff[b];
+      for (auto& el : g.srows[b])
+        if (c.use_subset_sens ? mine : true)
+          e.sens[el.first] += static_cast<double>(el.second) * eff / (c.use_subset_sens ? 1. : c.nsub);
     }
   for (std::size_t b = 0; b < g.bins.size(); ++b)
     {
@@ -549,14 +737,10 @@ explicit_quantities(const Geo& g, const Data& d, const RunCfg& c, const Vec& lam
         fwd += static_cast<double>(el.second) * lambda[el.first];
       const double ybar = fwd + d.add[b];
       e.ybar[b] = ybar;
-      // total (all subsets) sensitivity / subset sensitivity
-      for (auto& el : g.rows[b])
-        if (c.use_subset_sens ? mine : true)
-          e.sens[el.first] += static_cast<double>(el.second) * d.eff[b] / (c.use_subset_sens ? 1. : c.nsub);
       if (!mine)
         continue;
       e.total_counts += d.y[b];
-      const double small = vmax[std::make_pair(g.bins[b].segment_num(), g.bins[b].view_num())] * 1e-6;
+      const double small = vmax[vkey(g.bins[b])] * 1e-6;
       if (d.y[b] > 0)
         {
           // regular region of divide_and_truncate: y > small and y <= 10^4 ybar  (then the quotient is y / ybar)
@@ -587,7 +771,7 @@ static std::vector<int>
 legal_subset_numbers(const Geo& g, const Data& d)
 {
   std::vector<int> res;
-  for (int n = 1; n <= g.N / 2; ++n)
+  for (int n = 1; n <= g.views; ++n)
     {
       try
         {
@@ -607,7 +791,7 @@ legal_subset_numbers(const Geo& g, const Data& d)
 // ------------------------------------------------------------------------------------------------ real stream, one case
 static void
 run_real_case(const std::string& name, const Geo& g, const Data& d, RunCfg c, vh::Rng& rng, bool do_restart,
-              const std::vector<int>& legal)
+              const std::vector<int>& legal, bool do_side_branches)
 {
   const float eps = std::ldexp(1.F, -24);
   // start image: positive, sometimes with zeros / negatives (set_up's positivity step)
@@ -633,7 +817,9 @@ run_real_case(const std::string& name, const Geo& g, const Data& d, RunCfg c, vh
   from_vec(*image, start);
   try
     {
-      A = build(g, d, c, 1, c.N, "");
+      RunCfg ca = c;
+      ca.post = false; // the stepwise run has num_subiterations = k at every step: the post-filter belongs to run B
+      A = build(g, d, ca, 1, c.N, "");
       if (A.recon->set_up(image) != Succeeded::yes)
         throw std::runtime_error("set_up returned no");
       probe = make_obj(g, d, c);
@@ -680,6 +866,13 @@ run_real_case(const std::string& name, const Geo& g, const Data& d, RunCfg c, vh
   }
 
   std::vector<Vec> stepwise; // image after sub-iteration k (index k-1)
+  struct Step
+  {
+    Vec before, gps, sens, pg, after_update;
+    bool fu_fired;
+  };
+  std::vector<Step> steps; // what was observed at sub-iteration k (index k-1)
+  const Vec image_after_setup = to_vec(*image);
   double prev_ll = 0;
   bool have_prev_ll = false;
   bool finite = true;
@@ -720,6 +913,7 @@ run_real_case(const std::string& name, const Geo& g, const Data& d, RunCfg c, vh
       put_upd(k, subset, before, gps, sens, c.prior_active() ? &pg : nullptr, fu_fired ? &A.fu->outputs.back() : nullptr,
               after_update, fi_fired ? &A.fi->outputs.back() : nullptr, after);
       g_cov["real_subiterations"]++;
+      steps.push_back(Step{ before, gps, sens, pg, after_update, fu_fired });
       finite = all_finite(after);
       if (!finite)
         {
@@ -852,11 +1046,12 @@ run_real_case(const std::string& name, const Geo& g, const Data& d, RunCfg c, vh
   auto is_saved = [&](int k) { return k % si == 0 || k == c.N; }; // documented: intervals of ABSOLUTE sub-iteration numbers
   const std::string prefB = g_outdir + "/" + name + "_u";
   std::vector<Vec> saved(c.N + 1);
+  Objects B;
+  RunCfg cb = c;
+  cb.save_interval = 1;
   try
     {
-      RunCfg cb = c;
-      cb.save_interval = 1;
-      Objects B = build(g, d, cb, 1, c.N, prefB);
+      B = build(g, d, cb, 1, c.N, prefB);
       shared_ptr<TargetT> imb(g.tmpl->clone());
       from_vec(*imb, start);
       if (B.recon->set_up(imb) != Succeeded::yes)
@@ -867,6 +1062,9 @@ run_real_case(const std::string& name, const Geo& g, const Data& d, RunCfg c, vh
       ++g_checks;
       if (!bitwise_equal(saved[c.N], to_vec(*imb)))
         oracle_fail("saved final image differs from the image in memory, case=" + name);
+      ++g_checks;
+      if (!bitwise_equal(to_vec(*B.recon->get_target_image()), to_vec(*imb)))
+        oracle_fail("get_target_image() is not the reconstructed image, case=" + name);
     }
   catch (std::exception& e)
     {
@@ -874,12 +1072,47 @@ run_real_case(const std::string& name, const Geo& g, const Data& d, RunCfg c, vh
       oracle_fail("uninterrupted run failed, case=" + name + ": " + e.what());
       return;
     }
+  // what the uninterrupted run must have saved: the iterates of the stepwise run; with a post-filter the LAST one
+  // (sub-iteration == num_subiterations) filtered, all others untouched
+  std::vector<Vec> expected = stepwise;
+  if (c.post)
+    {
+      g_cov["post_filter_runs"]++;
+      ++g_checks;
+      if (B.fp->inputs.size() != 1 || B.fp->at[0] != c.N)
+        oracle_fail("post-filter applied " + std::to_string(B.fp->inputs.size()) + " times (first at sub-iteration "
+                    + std::to_string(B.fp->at.empty() ? 0 : B.fp->at[0]) + "), expected once at the last sub-iteration "
+                    + std::to_string(c.N) + ", case=" + name);
+      else if (!bitwise_equal(B.fp->inputs[0], stepwise[c.N - 1]))
+        oracle_fail("post-filter was not given the last iterate, case=" + name);
+      expected[c.N - 1] = LogFilter(c.post_shift).compute(stepwise[c.N - 1]);
+      // operations for the model (`endOfIterationPost`): iterate k of the unfiltered run -> what is saved as iterate k
+      for (int k = 1; k <= c.N; ++k)
+        {
+          int fired = -1;
+          for (std::size_t i = 0; i < B.fp->at.size(); ++i)
+            if (B.fp->at[i] == k)
+              fired = static_cast<int>(i);
+          std::fprintf(g_ops, "post %d %d %d L ", k, c.N, fired >= 0 ? 1 : 0);
+          put_vec(g_ops, stepwise[k - 1]);
+          if (fired >= 0)
+            {
+              std::fprintf(g_ops, " F ");
+              put_vec(g_ops, B.fp->outputs[fired]);
+            }
+          std::fprintf(g_ops, "\n");
+          put_vec(g_out, saved[k]);
+          std::fprintf(g_out, "\n");
+        }
+    }
   for (int k = 1; k <= c.N; ++k)
     {
       ++g_checks;
-      if (!bitwise_equal(saved[k], stepwise[k - 1]))
+      if (!bitwise_equal(saved[k], expected[k - 1]))
         {
-          oracle_fail("stepwise run and uninterrupted run differ after sub-iteration " + std::to_string(k) + ", case=" + name);
+          oracle_fail(std::string("stepwise run and uninterrupted run differ after sub-iteration ") + std::to_string(k)
+                      + (c.post ? (k == c.N ? " (post-filtered iterate)" : " (post-filter set, not the last iterate)") : "")
+                      + ", case=" + name);
           break;
         }
     }
@@ -911,6 +1144,147 @@ run_real_case(const std::string& name, const Geo& g, const Data& d, RunCfg c, vh
         {
           ++g_checks;
           oracle_fail("uninterrupted run with save interval failed, case=" + name + ": " + e.what());
+        }
+    }
+
+  // ---- E: the same run with `report objective function values interval` > 0 and `write update image` on (branches executed
+  //         inside the update loop): every saved iterate bitwise as without them; the update images are written for every
+  //         sub-iteration and are the multiplicative update (model: `updateImage`; image_k = image_{k-1} * limited update)
+  if (do_side_branches)
+    {
+      const std::string prefE = g_outdir + "/" + name + "_e";
+      try
+        {
+          Objects E = build(g, d, cb, 1, c.N, prefE);
+          const int ri = rng.range(1, std::max(1, c.N));
+          E.recon->set_report_objective_function_values_interval(ri);
+          E.recon->set_write_update_image(1);
+          shared_ptr<TargetT> ime(g.tmpl->clone());
+          from_vec(*ime, start);
+          if (E.recon->set_up(ime) != Succeeded::yes)
+            throw std::runtime_error("set_up E");
+          E.recon->reconstruct(ime);
+          g_cov["report_and_update_image_runs"]++;
+          int first_diff = -1;
+          for (int k = 1; k <= c.N && first_diff < 0; ++k)
+            if (!bitwise_equal(read_image(prefE + "_" + std::to_string(k) + ".hv"), saved[k]))
+              first_diff = k;
+          ++g_checks;
+          if (first_diff > 0)
+            oracle_fail("run with report_objective_function_values_interval=" + std::to_string(ri)
+                        + " and write_update_image differs from the run without them at iterate " + std::to_string(first_diff)
+                        + ", case=" + name);
+          const float new_min = static_cast<float>(c.clamps ? c.minrel : 0.);
+          const float new_max = static_cast<float>(c.clamps ? c.maxrel : std::numeric_limits<float>::max());
+          for (int k = 1; k <= c.N; ++k)
+            {
+              const std::string f = prefE + "_update_" + std::to_string(k) + ".hv";
+              ++g_checks;
+              if (!file_exists(f))
+                {
+                  oracle_fail("update image of sub-iteration " + std::to_string(k) + " not written, case=" + name);
+                  continue;
+                }
+              const Vec u = read_image(f);
+              const Step& st = steps[k - 1];
+              // operation for the model: the update image before the relative-change limits
+              std::fprintf(g_ops, "uimg %d %d G ", k, expected_subset(c, k));
+              put_vec(g_ops, st.gps);
+              std::fprintf(g_ops, " S ");
+              put_vec(g_ops, st.sens);
+              if (c.prior_active())
+                {
+                  std::fprintf(g_ops, " P ");
+                  put_vec(g_ops, st.pg);
+                }
+              std::fprintf(g_ops, "\n");
+              put_vec(g_out, u);
+              std::fprintf(g_out, "\n");
+              g_cov["update_images_compared"]++;
+              // ORACLE: image after update_estimate = image before (when no inter-update filter fired) * update limited to
+              // [minimum_relative_change, maximum_relative_change] (from sub-iteration 2 on), one float product
+              if (st.fu_fired || !all_finite(u))
+                continue;
+              bool ok = true;
+              int bad = -1;
+              for (int j = 0; j < g.nvox && ok; ++j)
+                {
+                  float m = u[j];
+                  if (k != 1)
+                    m = m > new_max ? new_max : (new_min > m ? new_min : m);
+                  const volatile float prod = st.before[j] * m;
+                  const float e = prod, a = st.after_update[j];
+                  if (std::memcmp(&e, &a, sizeof(float)) != 0
+                      && !(std::fabs(e) < 4 * std::numeric_limits<float>::min() && std::fabs(a) <= std::fabs(e))) // denormals: flush-to-zero
+                    {
+                      ok = false;
+                      bad = j;
+                    }
+                }
+              ++g_checks;
+              if (!ok)
+                oracle_fail("written update image * image before != image after, sub-iteration " + std::to_string(k) + " voxel "
+                            + std::to_string(bad) + ", case=" + name);
+            }
+        }
+      catch (std::exception& e)
+        {
+          ++g_checks;
+          oracle_fail("run with objective-function report / update images failed, case=" + name + ": " + e.what());
+        }
+    }
+
+  // ---- P: the users' path from scratch: parameter file with `initial estimate := 0 | 1`, parsed by the constructor, then the
+  //         no-argument reconstruct() (get_initial_data_ptr + set_up + reconstruct(target)); must be bitwise the in-memory
+  //         path (image filled with 0 / 1, set_up(image), reconstruct(image)) with objects configured through the setters
+  if (do_side_branches)
+    {
+      const std::string init = rng.range(0, 3) == 0 ? "0" : "1";
+      const std::string prefP = g_outdir + "/" + name + "_p", prefM = g_outdir + "/" + name + "_m";
+      try
+        {
+          const std::string par = write_par(g, d, cb, 1, c.N, prefP, init);
+          OSMAPOSLReconstruction<TargetT> r(par);
+          Objects po;
+          configure_filters(r, cb, po);
+          {
+            shared_ptr<TargetT> ini(r.get_initial_data_ptr());
+            ++g_checks;
+            if (!ini->has_same_characteristics(*g.tmpl))
+              oracle_fail("HARNESS: image made by the parameter file differs in geometry from the in-memory template, case=" + name);
+            std::fprintf(g_ops, "init %s %d\n", init.c_str(), g.nvox);
+            put_vec(g_out, to_vec(*ini));
+            std::fprintf(g_out, "\n");
+          }
+          if (r.reconstruct() != Succeeded::yes)
+            throw std::runtime_error("reconstruct() returned no");
+          Objects M = build(g, d, cb, 1, c.N, prefM);
+          shared_ptr<TargetT> imm(g.tmpl->clone());
+          imm->fill(init == "0" ? 0.F : 1.F);
+          if (M.recon->set_up(imm) != Succeeded::yes)
+            throw std::runtime_error("set_up M");
+          M.recon->reconstruct(imm);
+          g_cov["parfile_runs_from_" + init]++;
+          int first_diff = -1;
+          for (int k = 1; k <= c.N && first_diff < 0; ++k)
+            {
+              bool both;
+              if (!same_files(prefP + "_" + std::to_string(k) + ".hv", prefM + "_" + std::to_string(k) + ".hv", both) || !both)
+                first_diff = k;
+            }
+          ++g_checks;
+          if (first_diff > 0)
+            oracle_fail("parameter file + reconstruct() with initial estimate " + init
+                        + " differs from the in-memory path at iterate " + std::to_string(first_diff) + ", case=" + name);
+          ++g_checks;
+          if (!bitwise_equal(to_vec(*r.get_target_image()), to_vec(*imm)))
+            oracle_fail("get_target_image() after reconstruct() (initial estimate " + init
+                        + ") is not the image of the in-memory path, case=" + name);
+        }
+      catch (std::exception& e)
+        {
+          ++g_checks;
+          oracle_fail("parameter-file run (initial estimate " + init + ") failed, case=" + name + ": " + e.what());
         }
     }
 
@@ -1010,6 +1384,42 @@ run_real_case(const std::string& name, const Geo& g, const Data& d, RunCfg c, vh
               }
             ++g_checks;
             g_cov["restart_points"]++;
+            { // the same restart as users make it: parameter file with `initial estimate := <saved image k>` and
+              // `start at subiteration number := k+1`, no-argument reconstruct(): bitwise the in-memory resumed run
+              // (so whatever holds / fails for the one holds / fails for the other)
+              const std::string prefR = prefC + "p";
+              const std::string par = write_par(g, d, cr, k + 1, c.N, prefR, prefB + "_" + std::to_string(k) + ".hv");
+              OSMAPOSLReconstruction<TargetT> r(par);
+              Objects po;
+              configure_filters(r, cr, po);
+              {
+                shared_ptr<TargetT> ini(r.get_initial_data_ptr());
+                std::fprintf(g_ops, "init file %d V ", g.nvox);
+                put_vec(g_ops, loaded);
+                std::fprintf(g_ops, "\n");
+                put_vec(g_out, to_vec(*ini));
+                std::fprintf(g_out, "\n");
+              }
+              if (r.reconstruct() != Succeeded::yes)
+                throw std::runtime_error("reconstruct() of the parameter-file restart returned no");
+              g_cov["parfile_restart_points"]++;
+              int pdiff = -1;
+              for (int m = k + 1; m <= c.N && pdiff < 0; ++m)
+                {
+                  bool both;
+                  if (!same_files(prefR + "_" + std::to_string(m) + ".hv", prefC + "_" + std::to_string(m) + ".hv", both))
+                    pdiff = m;
+                }
+              ++g_checks;
+              if (pdiff > 0)
+                oracle_fail("restart by parameter file (initial estimate = saved image " + std::to_string(k)
+                            + ", start at subiteration number " + std::to_string(k + 1)
+                            + ") + reconstruct() differs from read_from_file + set_up + reconstruct(image) at iterate "
+                            + std::to_string(pdiff) + ", case=" + name + " enforce=" + std::to_string(enf));
+              ++g_checks;
+              if (!bitwise_equal(to_vec(*r.get_target_image()), to_vec(*imc)))
+                oracle_fail("restart by parameter file: final image in memory differs, case=" + name + " k=" + std::to_string(k));
+            }
             const bool has_nonpos = *std::min_element(loaded.begin(), loaded.end()) <= 0;
             if (has_nonpos)
               g_cov[enf ? "restart_points_with_exact_zeros_enforce_on" : "restart_points_with_exact_zeros_enforce_off"]++;
@@ -1493,13 +1903,31 @@ main(int argc, char** argv)
       const int R = rng.range(2, 3);            // rings
       const int nxy = rng.range(5, 7);          // image 5..7 across
       const int symflags = rng.range(0, 7);
-      Geo g = make_geo(N, R, nxy, symflags);
-      const int views = N / 2;
+      // geometry style: 0 span 1 (as before), 1 span 3, 2 view mashing, 3 time-of-flight (3 TOF bins); styles 1-3 also combined
+      const int style = gi % 4;
+      int span = 1, mash = 1, tofbins = 0, Ng = N, Rg = R;
+      if (style == 1 || (style != 0 && rng.range(0, 3) == 0))
+        {
+          span = 3;
+          Rg = rng.range(3, 4);
+        }
+      if (style == 2 || (style != 0 && rng.range(0, 3) == 0))
+        {
+          mash = 2;
+          Ng = 4 * rng.range(2, 4); // 8, 12, 16 detectors per ring: 2, 3, 4 views
+        }
+      if (style == 3)
+        tofbins = rng.range(0, 2) == 0 ? 5 : 3;
+      Geo g = make_geo(Ng, Rg, nxy, symflags, span, mash, tofbins);
+      const int views = g.views;
       g_cov["geometries"]++;
+      g_cov["geometries_span" + std::to_string(span)]++;
+      g_cov["geometries_view_mash" + std::to_string(mash)]++;
+      g_cov[std::string("geometries_tof") + (g.tof ? "1" : "0")]++;
       for (int di = 0; di < (thorough ? 4 : 3); ++di)
         {
           const bool has_add = (di & 1) != 0 ? true : rng.range(0, 3) == 0;
-          const bool has_norm = rng.coin();
+          const bool has_norm = rng.coin() && !g.tof; // (a norm for TOF data needs `use time-of-flight sensitivities`)
           const bool sparse = !has_add && rng.range(0, 2) == 0;
           const double level = sparse ? 0.6 : (rng.range(0, 2) == 0 ? 0.5 : 4.);
           Data d = make_data(g, rng, has_add, has_norm, level, sparse);
@@ -1508,28 +1936,37 @@ main(int argc, char** argv)
           const std::vector<int> legal = legal_subset_numbers(g, d);
           g_cov["illegal_subset_numbers"] += views - static_cast<int>(legal.size());
           if (di == 0)
-            { // the refusal itself: set_up must fail for an illegal number
-              for (int nsub = 1; nsub <= views; ++nsub)
-                if (std::find(legal.begin(), legal.end(), nsub) == legal.end())
-                  {
-                    RunCfg c;
-                    c.nsub = nsub;
-                    bool refused = false;
-                    try
-                      {
-                        Objects o = build(g, d, c, 1, 1, "");
-                        shared_ptr<TargetT> im(g.tmpl->clone());
-                        im->fill(1.F);
-                        refused = o.recon->set_up(im) != Succeeded::yes;
-                      }
-                    catch (std::exception&)
-                      {
-                        refused = true;
-                      }
-                    ++g_checks;
-                    if (!refused)
-                      oracle_fail("set_up accepted unbalanced subsets, nsub=" + std::to_string(nsub));
-                  }
+            { // the refusal itself, every number of subsets 1..views+1: OSMAPOSL::set_up accepts exactly the balanced ones
+              // (operation `bal` for the model: symmetries of the projector as requested, number of views, TOF -> decision)
+              for (int nsub = 1; nsub <= views + 1; ++nsub)
+                {
+                  const bool is_legal = std::find(legal.begin(), legal.end(), nsub) != legal.end();
+                  RunCfg c;
+                  c.nsub = nsub;
+                  bool refused = false;
+                  try
+                    {
+                      Objects o = build(g, d, c, 1, 1, "");
+                      shared_ptr<TargetT> im(g.tmpl->clone());
+                      im->fill(1.F);
+                      refused = o.recon->set_up(im) != Succeeded::yes;
+                    }
+                  catch (std::exception&)
+                    {
+                      refused = true;
+                    }
+                  // (view mashing gives view 0 an azimuthal offset: the projector then drops its view symmetries)
+                  const bool phi_offset = std::fabs(g.pdi->get_phi(Bin(0, 0, 0, 0))) > 1.E-4F;
+                  std::fprintf(g_ops, "bal %d %d %d %d %d %d %d %d %d %d\n", g.views, (symflags & 1) ? 1 : 0, (symflags & 2) ? 1 : 0,
+                               (symflags & 4) ? 1 : 0, g.tof ? 1 : 0, phi_offset ? 1 : 0, g.pdi->get_min_view_num(), g.pdi->get_max_view_num(),
+                               g.pdi->get_max_segment_num(), nsub);
+                  std::fprintf(g_out, "%s\n", refused ? "err" : "ok");
+                  g_cov[refused ? "subset_numbers_refused" : "subset_numbers_accepted"]++;
+                  ++g_checks;
+                  if (refused == is_legal)
+                    oracle_fail(std::string("set_up ") + (refused ? "refused balanced" : "accepted unbalanced") + " subsets, nsub="
+                                + std::to_string(nsub) + " views=" + std::to_string(g.views));
+                }
             }
           for (int nsub : legal)
             {
@@ -1567,12 +2004,17 @@ main(int argc, char** argv)
                           c.iif_shift = static_cast<float>(0.3 * rng.unit());
                         }
                       if (rng.range(0, 5) == 0)
-                        c.max_seg = rng.range(0, R - 1);
+                        c.max_seg = rng.range(0, g.pdi->get_max_segment_num());
                     }
                   if (c.N >= 3 && rng.range(0, 3) == 0)
                     c.save_interval = rng.range(2, std::min(c.N, 4));
+                  if (rng.range(0, 2) == 0)
+                    { // a post-filter (output with non-positive values: nothing is chained behind it)
+                      c.post = true;
+                      c.post_shift = static_cast<float>(0.4 * rng.unit());
+                    }
                   const bool do_restart = thorough || v == 0 || rng.range(0, 1) == 0;
-                  run_real_case("c" + std::to_string(case_no++), g, d, c, rng, do_restart, legal);
+                  run_real_case("c" + std::to_string(case_no++) + "sp" + std::to_string(g.span) + "m" + std::to_string(g.mash) + (g.tof ? "tof" : ""), g, d, c, rng, do_restart, legal, thorough || v == 0 || rng.range(0, 1) == 0);
                 }
             }
           const int nsynth = thorough ? 30 : 10;
